@@ -14,13 +14,16 @@ RULE = ('ragged arrays: all length vectors with <=3 rows of length 1..3 (T: <=4 
         '{nested lists, list of arrays, flat+lengths(list), flat+lengths(ndarray)} x index grammar {int, slice(a,b,c) with '
         'a,b in None/-n-1..n+1 and c in None,1,2,-1,-2, row lists, (int,int) incl. out-of-row and negative, (slice,slice), '
         '(list,slice), (slice,int), (slice,list), (int,slice), paired (list,list), boolean ragged masks (all masks for <=6 '
-        'elements), iteration, flatten, lengths/starts/shape/size/dtype/len}; state=(array, constructor, index expression); '
+        'elements), iteration, flatten, lengths/starts/shape/size/dtype/len}; lengths-dtype family: flat+lengths(ndarray of dtype '
+        'int8,int16,int32,uint8,uint16,uint32,uint64) for every length vector (attrs + a reduced grammar) and for long rows whose '
+        'total exceeds the range of the lengths dtype ((100,60,100) int8/uint8.., (200,100) uint8, (20000,20000,3) int16/uint16) '
+        'with a boundary menu per row; state=(array, constructor, index expression); '
         'non-trivial = unequal row lengths and an index touching >=2 rows')
 ASSUMPTIONS = ['observations are canonicalised to (row structure, values): a scalar is a 1-element result, a single selected row '
                'may come back as the bare row, a rectangular selection may come back as a 2-D array',
                'model raises (index out of range) => implementation must raise (any exception type)',
                'an empty selection may be reported as an empty ragged array or an empty array']
-GUARDS = {'ragged_arrays': 100, 'negative_index': 1000, 'out_of_row_must_raise': 500, 'masks': 500, 'two_dim_slices': 1000,
+GUARDS = {'lengths_dtype': 100, 'total_beyond_lengths_dtype': 10, 'ragged_arrays': 100, 'negative_index': 1000, 'out_of_row_must_raise': 500, 'masks': 500, 'two_dim_slices': 1000,
           'rank2_elements': 50}
 NSH = {'quick': 39, 'thorough': 340}
 
@@ -51,7 +54,80 @@ def build(rows, how):
     L = [len(r) for r in rows]
     if how == 'flat_list':
         return ra.RaggedArray(flat, lengths=L)
+    if how.startswith('flat_nd:'):
+        return ra.RaggedArray(flat, lengths=np.array(L, dtype=how.split(':')[1]))
     return ra.RaggedArray(flat, lengths=np.array(L))
+
+
+LEN_DTYPES = ('int8', 'int16', 'int32', 'uint8', 'uint16', 'uint32', 'uint64')
+LONG = (((100, 60, 100), ('int8', 'uint8', 'int16', 'uint64')), ((200, 100), ('uint8', 'int16')), ((3, 120, 8), ('int8',)),
+        ((20000, 20000, 3), ('int16', 'uint16', 'int32')))
+
+
+def boundary_menu(lengths):
+    """reduced grammar for long rows / lengths-dtype cases: every row, first/last/one-past-the-end element of every row,
+    2-D slices and paired fancy indices touching every row"""
+    n = len(lengths)
+    for i in range(-n, n):
+        yield ('int', i)
+    yield ('slice', slice(None, None, -1))
+    yield ('slice', slice(1, None))
+    yield ('rowlist', [n - 1, 0])
+    for i in range(n):
+        for j in (0, 1, lengths[i] - 1, -1, -lengths[i], lengths[i], -lengths[i] - 1):
+            yield ('int_int', (i, j))
+            yield ('int_int', (i - n, j))
+    for cs in (slice(None), slice(0, 2), slice(-2, None), slice(None, None, -1), slice(1, None, 2), slice(None, 1)):
+        yield ('slice_slice', (slice(None), cs))
+        yield ('slice_slice', (slice(None, None, -1), cs))
+        yield ('list_slice', ([n - 1, 0], cs))
+        for i in range(n):
+            yield ('int_slice', (i, cs))
+    for j in (0, -1, min(lengths) - 1):
+        yield ('slice_int', (slice(None), j))
+        yield ('list_int', (list(range(n)), j))
+    yield ('slice_list', (slice(None), [0, min(lengths) - 1]))
+    last = [(i, lengths[i] - 1) for i in range(n)]
+    first = [(i, 0) for i in range(n)]
+    for p in (last, first, last[::-1] + first):
+        yield ('list_list', ([a for a, _ in p], [b for _, b in p]))
+        yield ('array_array', (np.array([a - n for a, _ in p]), np.array([b - lengths[a] for a, b in p])))
+
+
+def run_lendtype_case(lengths, how, ctx):
+    rows = rr.mk_rows(lengths, 'int64', 1)
+    case0 = {'lengths': list(lengths), 'rank': 1, 'constructor': how, 'menu': 'boundary'}
+    ctx.guard('lengths_dtype')
+    dt = np.dtype(how.split(':')[1])
+    if sum(lengths) > np.iinfo(dt).max:
+        ctx.guard('total_beyond_lengths_dtype')
+    try:
+        A = build(rows, how)
+    except Exception as e:
+        ctx.violation('construct:raises:%s:%s' % (how.split(':')[0], type(e).__name__), case0, 'constructor raised %r for lengths %r (%s)' % (e, lengths, how))
+        return
+    check_attrs(A, rows, ctx, dict(case0, index='attrs'), 1)
+    ctx.state((tuple(lengths), 1, how, 'attrs'))
+    for form, idx in boundary_menu(lengths):
+        ctx.state((tuple(lengths), 1, how, form, repr(idx)), nontrivial=len(lengths) > 1)
+        check_index(A, rows, form, idx, ctx, dict(case0, index=jidx(idx), form=form), lengths, 1)
+    if sum(lengths) <= 6:
+        check_masks(A, rows, ctx, case0)
+    else:
+        # one mask per row boundary: last element of every row
+        from enspara import ra
+        mk = np.zeros(sum(lengths), dtype=bool)
+        mk[np.cumsum(lengths) - 1] = True
+        ctx.ev()
+        try:
+            M = ra.RaggedArray(mk, lengths=np.array(lengths, dtype=how.split(':')[1]))
+            got = A[M]
+            flat_got = np.concatenate([np.asarray(r).ravel() for r in got]) if len(got) else np.array([])
+            want = np.array([r[-1] for r in rows])
+            if not np.array_equal(flat_got, want):
+                ctx.violation('mask:value', dict(case0, index={'mask': 'last_of_each_row'}), 'mask of row ends gave %r want %r' % (flat_got.tolist()[:8], want.tolist()[:8]))
+        except Exception as e:
+            ctx.violation('mask:raises:%s' % type(e).__name__, dict(case0, index={'mask': 'last_of_each_row'}), 'row-end mask raised %r' % (e,))
 
 
 def svals(lo, hi):
@@ -380,6 +456,13 @@ def run_shard(sh, ctx):
             if tier == 'quick' and how in ('nested', 'flat_nd') and len(lengths) == 3 and i % 2:
                 continue
             run_case(lengths, rank, how, tier, ctx)
+    for dt in LEN_DTYPES:
+        if tier == 'quick' and (i + LEN_DTYPES.index(dt)) % 3:
+            continue
+        run_lendtype_case(lengths, 'flat_nd:' + dt, ctx)
+    if i < len(LONG):
+        for dt in LONG[i][1]:
+            run_lendtype_case(LONG[i][0], 'flat_nd:' + dt, ctx)
     ctx.sample({'lengths': list(lengths), 'constructors': CONSTRUCTORS, 'index_forms': 'full grammar'})
 
 
@@ -393,4 +476,7 @@ def replay(case, ctx):
         only = 'attrs'
     else:
         only = (case['form'], unj(idx))
+    if case.get('menu') == 'boundary':
+        run_lendtype_case(tuple(case['lengths']), case['constructor'], ctx)
+        return
     run_case(tuple(case['lengths']), case['rank'], case['constructor'], ctx.tier, ctx, only=only)
